@@ -73,6 +73,11 @@ def sequence_spec(rng: random.Random, n: int, wf_kind: str, phase_kind: str, dmm
         tot = sum(w)
         spec["dmm"] = {"weights": {q: wi / tot for q, wi in zip(ids, w)}}
         spec["ops"].insert(0, {"op": "dmm", "wf": {"k": "ramp", "d": sum(durs), "v0": -rng.uniform(0.0, 8.0), "v1": -rng.uniform(0.0, 8.0)}})
+        # the detuning map must act WHILE the atoms are driven: with the default protocol Pulser delays the global pulses until the
+        # DMM waveform is over (the channels share their targets), and a per-atom detuning on undriven ground-state atoms is inert
+        for o in spec["ops"]:
+            if o["op"] == "add":
+                o["protocol"] = "no-delay"
     if slm_kind == "subset" and n > 1 and not modulation:
         spec["slm"] = rng.sample(ids, rng.randint(1, n - 1))
     return spec
